@@ -36,6 +36,12 @@ def run(tier):
              for i in range(N)], "shared")
     go(san, [base + ["--mode", "managers", "--noshadow", "--steps", 20000 if q else 2000000, "--shard", "%d/%d" % (300 + i, N)]
              for i in range(N)], "managers")
+    # degenerate registry shapes, and a slice of the hostile workload, also in an unoptimised sanitizer build
+    san0 = build(drv, "sanrec0")
+    go(san, [base + ["--mode", "degenerate"]], "degenerate")
+    go(san0, [base + ["--mode", "degenerate"]], "degenerate(O0)")
+    go(san0, [base + ["--mode", "hostile", "--random", 4000 if q else 200000, "--shard", "%d/%d" % (500 + i, N)] for i in range(N)], "hostile(O0)")
+    go(san0, [base + ["--mode", "sequences", "--len", 2, "--zones", 3 if q else 8, "--shard", "%d/%d" % (500 + i, N)] for i in range(N)], "sequences(O0)")
     # the value-type sweeps of the calendar driver at the int32 edge, under sanitizers
     cal = build(VERIF / "native" / "calendar.cpp", "sanrec")
     r = run_shards(cal, [["--mode", "c06secs", "--stride", 99991 if q else 9973, "--edge", "--shard", "%d/%d" % (i, N)] for i in range(N)],
